@@ -48,7 +48,9 @@ type nondetRec struct {
 
 type lockState struct {
 	writer  bool
+	owner   int         // logical thread holding the write lock
 	readers int
+	rby     map[int]int // read holds per logical thread
 	name    string
 }
 
@@ -95,6 +97,7 @@ type Path struct {
 	inited  map[*ssa.Package]bool
 	locks   map[*value]*lockState
 	lockSeq int
+	thread  int // current logical thread (verifThread); interference windows run another operation as thread 2
 	clock   int64
 	depth   int
 	stats   PathStats
